@@ -347,11 +347,20 @@ def triage_timeout(rig, case, duration):
     network at least 5 s before the client gave up (RESPONSE_TIMEOUT is 20 s); ('harness', why) otherwise."""
     nid = case["node"]
     t_end = case.get("t0", 0) + duration
-    reqs = [f for f in rig.bus.log if f.src == "master" and f.can_id == 0x600 + nid and case.get("t0", 0) - 0.001 <= f.wall <= t_end]
+
+    def snapshot(dq):
+        for _ in range(50):                 # dispatcher threads may still be appending: copy until it works
+            try:
+                return list(dq)
+            except RuntimeError:
+                time.sleep(0.01)
+        return []
+    log, delivered = snapshot(rig.bus.log), snapshot(rig.bus.delivered)
+    reqs = [f for f in log if f.src == "master" and f.can_id == 0x600 + nid and case.get("t0", 0) - 0.001 <= f.wall <= t_end]
     if not reqs:
         return "harness", "no request of this call found in the bus log"
     last = reqs[-1]
-    for ts, dst, f, wall in list(rig.bus.delivered):
+    for ts, dst, f, wall in delivered:
         if dst == "master" and f.can_id == 0x580 + nid and f.ts > last.ts:
             if wall <= t_end - 5.0:
                 return "lost", f"{wall - last.wall:.2f} s after the request"
@@ -494,7 +503,15 @@ class PyCanRig:
 
 
 def _pair_frame_ids(self):
-    return [f.can_id for f in self.bus.log if 0x580 <= f.can_id <= 0x67F and f.src in ("master", "slave")]
+    for _ in range(50):                     # a thread that is still sending appends to the log: copy until it works
+        try:
+            log = list(self.bus.log)
+            break
+        except RuntimeError:
+            time.sleep(0.01)
+    else:
+        log = []
+    return [f.can_id for f in log if 0x580 <= f.can_id <= 0x67F and f.src in ("master", "slave")]
 
 
 rigs.PairRig.frame_ids = _pair_frame_ids
